@@ -213,25 +213,25 @@ NA_REASON = {}
 # rules added while testing against seeded changes (DESIGN.md sections 9.5-9.7), appended to the claim text
 EXTRA = {
  'C03': 'Also: Bucket sizes are exact floor halves computed without floating point; an Iterable chain is materialised before it is stored.',
- 'C01': 'Also: optimizer results flow into the returned state; the local step-count structure (shared with C04) and the pmap padding-step selection (shared with C02). The cohort is passed on whole (no filtered comprehension over the clients); model builders forward train / eval keyword arguments to the pass they belong to.',
- 'C02': 'Also: padding values are zeros_like of their template (dtype kept); no [0]/[-1] on the client list outside the per-block loop or an emptiness guard. The block sort key is the batch count only; no memoised function reads the backend selection; the setter stores the choice on every path.',
- 'C04': 'Also: the index array has the element type of the permutation buffer (>= 32 bit); dataclass replace() forwards its overrides unfiltered; hparams built from flags take each flag value unmodified.',
+ 'C01': 'Also: optimizer results flow into the returned state; the local step-count structure (shared with C04) and the pmap padding-step selection (shared with C02). The cohort is passed on whole (no filtered comprehension over the clients); model builders forward train / eval keyword arguments to the pass they belong to. apply never returns the state it was given (the server step is taken on every path); no donation on the round\'s path; every backend yields for every client and keeps nothing between calls.',
+ 'C02': 'Also: padding values are zeros_like of their template (dtype kept); no [0]/[-1] on the client list outside the per-block loop or an emptiness guard. The block sort key is the batch count only; no memoised function reads the backend selection; the setter stores the choice on every path. No client is skipped by a backend; `run` mutates nothing of the enclosing __call__ (scratch lists, caches).',
+ 'C04': 'Also: the index array has the element type of the permutation buffer (>= 32 bit); dataclass replace() forwards its overrides unfiltered; hparams built from flags take each flag value unmodified. The number of batches is decided per case of (num_epochs, drop_remainder, num_steps) by a case table with canonical arithmetic (no floating point, no truthiness test of an optional count); dataset size rules shared with C03.',
  'C05': 'Also: the evaluation loop merges every batch (no break / skipped iteration); the average-loss evaluators end in safe_div (shared with C06). Every metric field takes part in equality / hash (static jit argument); accumulators are numbers, not booleans; the per-domain identity has the domain axis.',
  'C06': 'Also: once the regulariser is added the value does not flow into a reduction; nobody hands a regulariser to the factory of the known finding; per-domain means use safe_div; pair sums are not modified between accumulation and normalisation. Every result of evaluate_average_loss goes through the finalizer; no raw division by the cohort example count in Mime / MimeLite.',
  'C07': 'Also: aggregators do not filter clients before the mean; tree_sum/tree_mean accumulate in first-copy-then-add form with owned accumulators.',
  'C08': 'Also: Optional bounds are tested with `is None`, never by truthiness; every query of a view runs on its own cursor.',
- 'C09': 'Also: the temporary file is closed before it is renamed; the removal list is every checkpoint but the newest `keep`; load_state returns the unpickled object unconverted; no file of the run is opened in append mode; the round-indexed sampler rules of C13. Divisions after the round loop are zero-guarded (a resumed run may have no rounds left); no ordered sequence is built from a set.',
- 'C10': 'Also: state constructor / replace() arguments are not views, iterators, generators or handles (a state must pickle and be a pytree). Donation is declared only in tree_util.py / for_each_client.py; a state field initialised with a numpy array is not updated through an augmented assignment on an alias.',
- 'C11': 'Also: a state rebuilt with .replace() gets a fresh key; tree_mean and its zero-guarded normaliser (shared with C07). No counter or list that outlives one apply() (hidden-state rule of C10 on the compression modules); loops carry their accumulator (R-LOOPCARRY).',
+ 'C09': 'Also: the temporary file is closed before it is renamed; the removal list is every checkpoint but the newest `keep`; load_state returns the unpickled object unconverted; no file of the run is opened in append mode; the round-indexed sampler rules of C13. Divisions after the round loop are zero-guarded (a resumed run may have no rounds left); no ordered sequence is built from a set. Every configured final evaluation runs unconditionally.',
+ 'C10': 'Also: state constructor / replace() arguments are not views, iterators, generators or handles (a state must pickle and be a pytree). Donation is declared only in tree_util.py / for_each_client.py; a state field initialised with a numpy array is not updated through an augmented assignment on an alias. The optimizer wrapper writes into fresh containers only and returns the state its base optimizer produced.',
+ 'C11': 'Also: a state rebuilt with .replace() gets a fresh key; tree_mean and its zero-guarded normaliser (shared with C07). No counter or list that outlives one apply() (hidden-state rule of C10 on the compression modules); loops carry their accumulator (R-LOOPCARRY). The leaf-level quantizer is applied per leaf; optional bounds are tested with `is None` also where the parameter is rebound later.',
  'C12': 'Also: HypCluster carries the updated optimizer state; Mime evaluates the control variate with the key of the step. No module-level cache or in-place update of a state list in the algorithm modules; the weight total is accumulated per stream occurrence, not per client id.',
  'C13': 'Also: shuffled_clients builds one RandomState(seed) unconditionally (no truthiness test of the seed) and iterates ids in sorted order. Reading a stream of clients does not permute the id list of the dataset; the population is never ordered through a set.',
- 'C14': 'Also: cross entropy takes log-probabilities from log_softmax (never log(softmax)); the confusion matrix puts one count at [target, argmax]. The ConfusionMatrix length check rejects exactly the unequal pairs (guard tabulated over a finite domain); weights may be the inlined get_target_weight call.',
+ 'C14': 'Also: cross entropy takes log-probabilities from log_softmax (never log(softmax)); the confusion matrix puts one count at [target, argmax]. The ConfusionMatrix length check rejects exactly the unequal pairs (guard tabulated over a finite domain); weights may be the inlined get_target_weight call. The SequenceLength numerator is a reduction of the weights.',
  'C15': 'Also: the per-client cursor is assigned in every iteration before it is read (must-assign dataflow over the loop body); concat_examples appends every piece; the no-copy arm of RepeatableIterator is limited to builtin re-iterable containers. The bucket rule of the final batch (shared with C03).',
- 'C16': 'Also: NumPy scalars come back through ar[()]; every INSERT of the builder is committed before the method returns; no cursor is stored on a view; load_state returns the unpickled object unconverted. The state file is published by rename on the normal path only (never from a finally / except block); CREATE TABLE is unconditional.',
- 'C17': 'Also: no function of apfl.py writes into a state table it was given; the sliding window keeps its length; HypCluster leaves empty clusters untouched. The per-domain counts entering the window are the unmodified sum over the clients.',
- 'C18': 'Also: no shortcut return in one rotation direction only; the einsum / tensordot axis schedule; no module-level caches; divisions only by shape-derived lengths. The factorisation loop stops at 1 (strict test); the diagonal of signs is never sign() of a continuous draw.',
- 'C19': 'Also: the download / decompress loops do not swallow read errors and require end-of-stream; a stale temporary file is removed or truncated before rebuilding. Published files are written through buffered writers; no publishing rename in a finally / except block.',
- 'C20': 'Also: constants are folded at the arguments the task actually passes; the look-up table fill value is the OOV label; crop arguments are not swapped; logits are transposed (not reshaped) back to batch-major; the default vocabulary size reaches the loader unmodified. Accepted crop sizes are exactly 1..32 (guard tabulated); every snippet is written and counted; a value computed for a module argument reaches the constructor.',
+ 'C16': 'Also: NumPy scalars come back through ar[()]; every INSERT of the builder is committed before the method returns; no cursor is stored on a view; load_state returns the unpickled object unconverted. The state file is published by rename on the normal path only (never from a finally / except block); CREATE TABLE is unconditional. The dtype is written by name (the reader looks it up by name); NumPy scalars are recognised before native complex.',
+ 'C17': 'Also: no function of apfl.py writes into a state table it was given; the sliding window keeps its length; HypCluster leaves empty clusters untouched. The per-domain counts entering the window are the unmodified sum over the clients. MimeLite\'s weighted mean (shared with C12); ignore_grads returns the base optimizer\'s new state.',
+ 'C18': 'Also: no shortcut return in one rotation direction only; the einsum / tensordot axis schedule; no module-level caches; divisions only by shape-derived lengths. The factorisation loop stops at 1 (strict test); the diagonal of signs is never sign() of a continuous draw. One contraction per axis (never over a de-duplicated set of block sizes); a parameter is not clamped before it is validated; no identity-based bookkeeping.',
+ 'C19': 'Also: the download / decompress loops do not swallow read errors and require end-of-stream; a stale temporary file is removed or truncated before rebuilding. Published files are written through buffered writers; no publishing rename in a finally / except block. A reader that does not enforce Content-Length needs an explicit length check; the default progress reporter yields all its steps.',
+ 'C20': 'Also: constants are folded at the arguments the task actually passes; the look-up table fill value is the OOV label; crop arguments are not swapped; logits are transposed (not reshaped) back to batch-major; the default vocabulary size reaches the loader unmodified. Accepted crop sizes are exactly 1..32 (guard tabulated); every snippet is written and counted; a value computed for a module argument reaches the constructor. A row\'s loss does not use the batch size; every returned loss is the padding-masked one; the test split is not preprocessed with distortion.',
 }
 FORWARD_NOTE = (' Cross-cutting R-FORWARD (functions scoped per property in rules/forward.py): every parameter is read or explicitly discarded, same-named '
                 'parameters are passed on to repository callees, optional numbers are not tested by truthiness, same-named arguments are not '
@@ -254,7 +254,7 @@ def main():
       'replay_cmd_template': f'./check {pid} --replay {{path}}',
       'engine': 'fjsa',
       'level_claimed': {'category': 'other', 'text': c['text'] + (' ' + EXTRA[pid] if pid in EXTRA else '') + FORWARD_NOTE,
-                        'design_ref': c['design'] + '; sections 9.5-9.10'},
+                        'design_ref': c['design'] + '; sections 9.5-9.11'},
       'level_note': c.get('note', '') + ('' if not c.get('note') else ' ') + COMMON_NOTE,
       'technique': c['technique'],
     })
